@@ -146,6 +146,7 @@ package encoding
 //@   ensures[never-grows] len(ret0) <= len(rest)
 //@   ensures[same-map] o.Fields == old(o.Fields)
 //@   ensures[keys-array] refOf(o.Keys) == refOf(old(o.Keys)) || fresh(o.Keys)
+//@   ensures[count] ret1 == nil ==> len(o.Keys) == len(old(o.Keys)) + 1
 //@   ensures[inv] old(omInvCBOR(o)) ==> omInvCBOR(o)
 //@   modifies o.Keys, mapOf(o.Fields), elems(o.Keys)
 
@@ -154,10 +155,12 @@ package encoding
 //@   requires o != nil && dm != nil && len(o.Keys) == 0
 //@   allocbound len(data)
 //@   ensures[inv] ret == nil ==> omInvCBOR(o)
+//@   ensures[fresh-map] ret == nil ==> o.Fields != nil && fresh(o.Fields) && (refOf(o.Keys) == refOf(old(o.Keys)) || fresh(o.Keys))
 //@   ensures[empty-input] len(data) == 0 ==> ret != nil
+//@   ensures[empty-map] len(data) == 1 && data[0] == 0xa0 ==> ret == nil && len(o.Keys) == 0
 //@   ensures[not-a-map] len(data) > 0 && (data[0] >> 5) != 5 && (data[0] >> 5) != 6 ==> ret != nil
 //@   modifies o.Fields, o.Keys, elems(o.Keys)
-//@   loop 0 invariant 0 <= i && i <= mapLen && len(rest) <= len(data)
+//@   loop 0 invariant 0 <= i && i <= mapLen && len(rest) <= len(data) && len(o.Keys) == i
 //@   loop 0 invariant o.Fields != nil && fresh(o.Fields) && (refOf(o.Keys) == refOf(old(o.Keys)) || fresh(o.Keys))
 //@   loop 0 invariant omInvCBOR(o)
 //@   loop 0 decreases mapLen - i
@@ -165,3 +168,106 @@ package encoding
 //@   loop 1 invariant o.Fields != nil && fresh(o.Fields) && (refOf(o.Keys) == refOf(old(o.Keys)) || fresh(o.Keys))
 //@   loop 1 invariant omInvCBOR(o)
 //@   loop 1 decreases len(rest)
+
+// ---------------------------------------------------------------- json.go: key order reader
+
+//@ func encoding.skipValue
+//@   property C05 C06 C15
+//@   requires decoder != nil && remaining(decoder) >= 0
+//@   decreases remaining(decoder)
+//@   ensures[consumes] ret == nil || ret == errEndOfStream ==> remaining(decoder) < old(remaining(decoder)) && remaining(decoder) >= 0
+//@   ensures[never-grows] remaining(decoder) <= old(remaining(decoder)) && remaining(decoder) >= 0
+//@   modifies nothing
+//@   loop 0 invariant remaining(decoder) >= 0 && remaining(decoder) < old(remaining(decoder))
+//@   loop 0 decreases remaining(decoder)
+
+//@ func (*encoding.structFieldsJSON).unmarshalKeys
+//@   property C05 C06 C15
+//@   requires o != nil
+//@   ensures[nodup] ret == nil ==> noDupStrings(o.Keys)
+//@   ensures[fresh-keys] ret == nil ==> o.Keys == nil || fresh(o.Keys)
+//@   ensures[fields] o.Fields == old(o.Fields)
+//@   modifies o.Keys
+//@   loop 0 invariant decoder != nil && remaining(decoder) >= 0 && seen != nil && fresh(seen) && (keys == nil || fresh(keys))
+//@   loop 0 invariant noDupStrings(keys) && forall(j, 0, len(keys), inDom(seen, keys[j]) && seen[keys[j]])
+//@   loop 0 decreases remaining(decoder)
+
+//@ func (*encoding.structFieldsJSON).FromJSON
+//@   property C05 C06 C15
+//@   requires o != nil
+//@   ensures[nodup] ret == nil ==> noDupStrings(o.Keys)
+//@   ensures[fresh-map] ret == nil ==> (o.Fields == nil || fresh(o.Fields)) && (o.Keys == nil || fresh(o.Keys))
+//@   modifies o.Fields, o.Keys
+
+// ---------------------------------------------------------------- cbor.go: map writer
+
+// RFC 8949 definite-length map header for n entries, as the first bytes of out.
+//@ spec hdrOK(out []byte, n int) bool = (n < 24 ==> len(out) >= 1 && out[0] == 0xa0|byte(n)) && (n >= 24 && n <= 0xff ==> len(out) >= 2 && out[0] == 0xb8 && out[1] == byte(n)) && (n > 0xff && n <= 0xffff ==> len(out) >= 3 && out[0] == 0xb9 && out[1] == byte(n>>8) && out[2] == byte(n)) && (n > 0xffff ==> len(out) >= 5 && out[0] == 0xba && out[1] == byte(n>>24) && out[2] == byte(n>>16) && out[3] == byte(n>>8) && out[4] == byte(n))
+
+//@ func (*encoding.structFieldsCBOR).ToCBOR
+//@   property C15 C10 C05 C17 C18
+//@   requires o != nil && em != nil && len(o.Keys) <= 0xffffffff
+//@   ensures[header] ret1 == nil ==> hdrOK(ret0, len(o.Keys))
+//@   ensures[empty] len(o.Keys) == 0 ==> ret1 == nil && len(ret0) == 1
+//@   ensures[fresh] ret1 == nil ==> fresh(ret0)
+//@   ensures[err] ret1 != nil ==> ret0 == nil
+//@   modifies nothing
+//@   loop 0 invariant rangeindex >= -1 && rangeindex < len(o.Keys) && hdrOK(out, len(o.Keys)) && fresh(out) && len(o.Keys) > 0
+
+//@ func (*encoding.structFieldsJSON).ToJSON
+//@   property C15 C05 C17 C18
+//@   requires o != nil
+//@   ensures[err] ret1 != nil ==> ret0 == nil
+//@   modifies nothing
+//@   loop 0 invariant rangeindex >= -1 && rangeindex < len(o.Keys)
+
+// ---------------------------------------------------------------- reflection walk (outside the verifier's reach)
+
+//@ func encoding.doPopulateStructFromCBOR
+//@   trusted walks dest with reflect; exercised by the bounded stand-ins reflect-cbor / reflect-json and audited
+//@   requires rawMap != nil
+//@   ensures true
+//@   modifies rawMap.Keys, mapOf(rawMap.Fields), elems(rawMap.Keys)
+
+//@ func encoding.doPopulateStructFromJSON
+//@   trusted walks dest with reflect; exercised by the bounded stand-ins reflect-cbor / reflect-json and audited
+//@   requires rawMap != nil
+//@   ensures true
+//@   modifies rawMap.Keys, mapOf(rawMap.Fields), elems(rawMap.Keys)
+
+//@ func encoding.doSerializeStructToCBOR
+//@   trusted walks source with reflect; exercised by the bounded stand-ins reflect-cbor / reflect-json and audited
+//@   requires rawMap != nil
+//@   ensures[keys-array] refOf(rawMap.Keys) == refOf(old(rawMap.Keys)) || fresh(rawMap.Keys)
+//@   ensures[bounded-len] len(rawMap.Keys) <= 0xffffffff
+//@   modifies rawMap.Keys, mapOf(rawMap.Fields), elems(rawMap.Keys)
+
+//@ func encoding.doSerializeStructToJSON
+//@   trusted walks source with reflect; exercised by the bounded stand-ins reflect-cbor / reflect-json and audited
+//@   requires rawMap != nil
+//@   ensures true
+//@   modifies rawMap.Keys, mapOf(rawMap.Fields), elems(rawMap.Keys)
+
+//@ func encoding.PopulateStructFromCBOR
+//@   property C05 C06 C15
+//@   requires dm != nil
+//@   modifies nothing
+
+//@ func encoding.PopulateStructFromJSON
+//@   property C05 C06 C15
+//@   modifies nothing
+
+//@ func encoding.SerializeStructToCBOR
+//@   property C05 C15
+//@   requires em != nil
+//@   ensures[err] ret1 != nil ==> ret0 == nil
+//@   modifies nothing
+
+//@ func encoding.SerializeStructToJSON
+//@   property C05 C15
+//@   ensures[err] ret1 != nil ==> ret0 == nil
+//@   modifies nothing
+
+//@ bounded[C15] reflect-cbor : 26 values over 5 struct shapes (flat / one / two levels of embedding / embedded interface holding a struct or a pointer), every subset of 3 optional fields, synthetic structs of 0,1,23,24,25,255,256,257 fields :: boundedReflectCBOR()
+//@ bounded[C15] reflect-json : the same 26 values over 5 struct shapes, JSON side :: boundedReflectJSON()
+//@ bounded[C05] populate-no-panic : every truncation of 31 CBOR and 31 JSON seed documents, every value of each of the first 6 bytes of each CBOR seed :: boundedPopulateNoPanic()
